@@ -354,7 +354,12 @@ def cmdFile (toks : List String) : Option String := do
   let b ← (← kv toks "end").toNat?
   let sizesS ← kv toks "sizes"
   let sizes ← (if sizesS == "" then some [] else (sizesS.splitOn ",").mapM (·.toNat?))
-  let outs := fileRun a b sizes
+  -- `cs=<n>`: the read size measured from the implementation; absent: the pinned crate's value
+  let cs ← (match kv toks "cs" with
+    | none => some kChunkSize
+    | some t => t.toNat?)
+  if cs == 0 then none
+  let outs := fileRun cs a b sizes
   pure (" ".intercalate (outs.map fun o =>
     match o with
     | .chunk s n => s!"C{s}+{n}"
